@@ -283,7 +283,7 @@ func Run(r *core.Run) {
 			judge(base+"/"+name, c, own, false)
 		}
 		// protected-header surgery on the decoded JSON: a member added (with an empty, ordinary, null, numeric, boolean and structured
-		// value), the existing members re-ordered / re-spaced, "alg" given as another JSON type: the decoded header content changes
+		// value), at either end: the decoded header content changes
 		{
 			var hdr map[string]any
 			if json.Unmarshal(dec[0], &hdr) == nil {
@@ -299,7 +299,8 @@ func Run(r *core.Run) {
 						}
 					}
 				}
-				judge(base+"/header-respaced", enc.EncodeToString([]byte(strings.Replace(string(dec[0]), ":", " : ", 1)))+"."+seg[1]+"."+seg[2], own, false)
+				// (a header that is only re-spaced has the same decoded content: the statement does not say whether it verifies - an
+				// implementation may verify over the received octets, RFC 7515, or over the decoded content - so it is not judged)
 			}
 		}
 		// unsupported / malformed keys
